@@ -150,6 +150,10 @@ class Repo:
                 for t in node.targets:
                     if isinstance(t, ast.Name):
                         mod.globals_assigned[t.id] = node.value
+                    elif isinstance(t, (ast.Tuple, ast.List)) and isinstance(node.value, (ast.Tuple, ast.List)) and \
+                            len(t.elts) == len(node.value.elts) and all(isinstance(e, ast.Name) for e in t.elts):
+                        for e, v in zip(t.elts, node.value.elts):      # _MIN, _MAX = 1, -1
+                            mod.globals_assigned[e.id] = v
 
     def _resolve_bases(self):
         for mod in self.modules.values():
@@ -270,8 +274,9 @@ class Repo:
             for n in mod.tree.body:
                 if isinstance(n, ast.Assign):
                     for t in n.targets:
-                        if isinstance(t, ast.Name):
-                            counts[t.id] = counts.get(t.id, 0) + 1
+                        for x in ast.walk(t):
+                            if isinstance(x, ast.Name) and isinstance(x.ctx, ast.Store):
+                                counts[x.id] = counts.get(x.id, 0) + 1
             mod._lit_consts = {}
             for k, v in mod.globals_assigned.items():
                 if counts.get(k) == 1 and k.startswith('_') and not k.startswith('__'):
